@@ -39,6 +39,8 @@ pub fn verif_root() -> PathBuf {
 
 #[derive(Serialize, Deserialize, Clone)]
 pub struct Found {
+    #[serde(default)]
+    pub no_minimise: bool,
     pub run: u64,
     pub world: String,
     pub profile: String,
@@ -148,6 +150,7 @@ pub fn worker<W: World>(
             wo.violating_runs += 1;
             if wo.found.len() < MAX_FOUND_PER_WORKER {
                 wo.found.push(Found {
+                    no_minimise: false,
                     run,
                     world: W::NAME.to_string(),
                     profile: profile_name().to_string(),
@@ -279,9 +282,54 @@ pub fn run_stage(prop: &str, tier: Tier, seed: u64, stage: &Stage, scratch: &Pat
                 }
             }
         }
-        for (k, c) in children.into_iter().enumerate() {
+        let deadline = Instant::now() + stage_timeout(tier);
+        let mut statuses: Vec<Option<std::io::Result<std::process::ExitStatus>>> = (0..children.len()).map(|_| None).collect();
+        let mut hung: Vec<bool> = vec![false; children.len()];
+        loop {
+            let mut pending = 0;
+            for (k, c) in children.iter_mut().enumerate() {
+                if statuses[k].is_some() {
+                    continue;
+                }
+                match c.as_mut().unwrap().try_wait() {
+                    Ok(Some(st)) => statuses[k] = Some(Ok(st)),
+                    Ok(None) => pending += 1,
+                    Err(e) => statuses[k] = Some(Err(e)),
+                }
+            }
+            if pending == 0 {
+                break;
+            }
+            if Instant::now() > deadline {
+                // bounded progress: a worker that does not finish within the stage budget is hung
+                for (k, c) in children.iter_mut().enumerate() {
+                    if statuses[k].is_none() {
+                        let ch = c.as_mut().unwrap();
+                        let _ = ch.kill();
+                        statuses[k] = Some(ch.wait());
+                        hung[k] = true;
+                    }
+                }
+                break;
+            }
+            std::thread::sleep(std::time::Duration::from_millis(5));
+        }
+        for (k, status) in statuses.into_iter().enumerate() {
             let j = &jobs[idx + k];
-            let status = c.unwrap().wait();
+            let status = status.unwrap();
+            if hung[k] {
+                match locate_crash(prop, tier, seed, stage, j, None, true) {
+                    Ok(f) => {
+                        res.found.push(f);
+                        res.violating_runs += 1;
+                    }
+                    Err(e) => {
+                        res.harness_error = Some(e);
+                        return res;
+                    }
+                }
+                continue;
+            }
             match status {
                 Ok(st) if st.success() => {}
                 Ok(st) if st.code() == Some(2) => {
@@ -290,7 +338,7 @@ pub fn run_stage(prop: &str, tier: Tier, seed: u64, stage: &Stage, scratch: &Pat
                 }
                 Ok(st) => {
                     // died on a signal (or an abort): a process crash inside konst code.
-                    let crash = locate_crash(prop, tier, seed, stage, j, st.code());
+                    let crash = locate_crash(prop, tier, seed, stage, j, st.code(), false);
                     match crash {
                         Ok(f) => {
                             res.found.push(f);
@@ -356,10 +404,34 @@ pub fn run_stage(prop: &str, tier: Tier, seed: u64, stage: &Stage, scratch: &Pat
     res
 }
 
-/// After a worker died on a signal: re-run its range with a progress marker to find the run.
-fn locate_crash(prop: &str, tier: Tier, seed: u64, stage: &Stage, j: &Job, code: Option<i32>) -> Result<Found, String> {
+pub fn stage_timeout(tier: Tier) -> std::time::Duration {
+    let default = if tier == Tier::Quick { 180 } else { 5400 };
+    let s = std::env::var("KSIM_STAGE_TIMEOUT_S").ok().and_then(|s| s.parse().ok()).unwrap_or(default);
+    std::time::Duration::from_secs(s)
+}
+
+/// Waits for a child with a deadline; None = it had to be killed.
+fn wait_deadline(child: &mut std::process::Child, limit: std::time::Duration) -> Option<std::process::ExitStatus> {
+    let deadline = Instant::now() + limit;
+    loop {
+        match child.try_wait() {
+            Ok(Some(st)) => return Some(st),
+            Ok(None) => {}
+            Err(_) => return None,
+        }
+        if Instant::now() > deadline {
+            let _ = child.kill();
+            let _ = child.wait();
+            return None;
+        }
+        std::thread::sleep(std::time::Duration::from_millis(2));
+    }
+}
+
+/// After a worker died on a signal or hung: re-run its range with a progress marker to find the run.
+fn locate_crash(prop: &str, tier: Tier, seed: u64, stage: &Stage, j: &Job, code: Option<i32>, hung: bool) -> Result<Found, String> {
     let out = j.out.with_extension("careful");
-    let st = Command::new(&j.exe)
+    let mut child = Command::new(&j.exe)
         .arg("worker")
         .arg(stage.world)
         .arg(prop)
@@ -371,30 +443,33 @@ fn locate_crash(prop: &str, tier: Tier, seed: u64, stage: &Stage, j: &Job, code:
         .arg("--careful")
         .stdin(Stdio::null())
         .stderr(Stdio::null())
-        .status()
+        .spawn()
         .map_err(|e| format!("cannot re-run crashed worker: {e}"))?;
-    if st.success() {
-        return Err(format!(
-            "worker for runs {}..{} died (code {:?}) but the careful re-run passed: not deterministic",
-            j.from, j.to, code
-        ));
+    let st = wait_deadline(&mut child, stage_timeout(tier) / 2);
+    if let Some(st) = st {
+        if st.success() {
+            return Err(format!(
+                "worker for runs {}..{} {} but the careful re-run passed: not deterministic",
+                j.from, j.to, if hung { "hung".to_string() } else { format!("died (code {:?})", code) }
+            ));
+        }
     }
+    let still_hung = st.is_none();
     let run: u64 = std::fs::read_to_string(out.with_extension("progress"))
         .ok()
         .and_then(|s| s.trim().parse().ok())
         .ok_or_else(|| "no progress marker after crash".to_string())?;
     let case = with_world!(stage.world, W => serde_json::to_value(gen_case::<W>(seed, prop, tier, run)).unwrap());
-    Ok(Found {
-        run,
-        world: stage.world.to_string(),
-        profile: j.profile.clone(),
-        case,
-        violation: viol(
+    let violation = if still_hung {
+        viol("process-hang", usize::MAX, "the run did not finish within the time budget (bounded progress): some konst call does not terminate".to_string())
+    } else {
+        viol(
             "process-crash",
             usize::MAX,
             format!("worker process died (exit code {:?}, i.e. a signal or abort) while executing this run", code),
-        ),
-    })
+        )
+    };
+    Ok(Found { no_minimise: false, run, world: stage.world.to_string(), profile: j.profile.clone(), case, violation })
 }
 
 // ------------------------------------------------------------------------------------------
@@ -429,18 +504,28 @@ fn exec_in_child(world: &str, prop: &str, case: &Value, scratch: &Path, exe: &Pa
         minimise_executions: 0,
     };
     std::fs::write(&f, serde_json::to_vec(&rf).ok()?).ok()?;
-    let out = Command::new(exe).arg("replay").arg(&f).arg("--json").stdin(Stdio::null()).stderr(Stdio::null()).output().ok()?;
-    match out.status.code() {
+    let mut child = Command::new(exe).arg("replay").arg(&f).arg("--json").stdin(Stdio::null()).stderr(Stdio::null()).stdout(Stdio::piped()).spawn().ok()?;
+    let st = wait_deadline(&mut child, std::time::Duration::from_secs(5));
+    let Some(st) = st else {
+        return Some(viol("process-hang", usize::MAX, "child did not finish within 5 s".into()));
+    };
+    let mut stdout = Vec::new();
+    if let Some(mut o) = child.stdout.take() {
+        use std::io::Read;
+        let _ = o.read_to_end(&mut stdout);
+    }
+    match st.code() {
         Some(0) => None,
-        Some(1) => serde_json::from_slice::<Violation>(&out.stdout).ok(),
+        Some(1) => serde_json::from_slice::<Violation>(&stdout).ok(),
         Some(_) => None,
         None => Some(viol("process-crash", usize::MAX, "child died on a signal".into())),
     }
 }
 
 pub fn minimise_found(f: &Found, prop: &str, tier: Tier, scratch: &Path, exe: &Path) -> (Value, Violation, usize, usize) {
-    let max_exec: usize = if f.violation.class == "process-crash" { 300 } else { 2000 };
-    let deadline = Instant::now() + std::time::Duration::from_secs(20);
+    let crashy = f.violation.class == "process-crash" || f.violation.class == "process-hang";
+    let max_exec: usize = if crashy { 120 } else { 2000 };
+    let deadline = Instant::now() + std::time::Duration::from_secs(if crashy { 60 } else { 20 });
     let world = f.world.clone();
     with_world!(world.as_str(), W => {
         let case: <W as World>::Case = match serde_json::from_value(f.case.clone()) {
@@ -448,7 +533,6 @@ pub fn minimise_found(f: &Found, prop: &str, tier: Tier, scratch: &Path, exe: &P
             Err(_) => return (f.case.clone(), f.violation.clone(), 0, 0),
         };
         let orig_len = W::plan_len(&case);
-        let crashy = f.violation.class == "process-crash";
         let out = minimise::<W>(
             &case,
             &f.violation,
@@ -488,6 +572,22 @@ pub fn cmd_replay(path: &str, json_out: bool) -> i32 {
             return 2;
         }
     };
+    // bounded progress: a plan that does not finish is reported as a hang, not waited for
+    {
+        let (prop, path, json_out) = (rf.property.clone(), path.to_string(), json_out);
+        let limit: u64 = std::env::var("KSIM_REPLAY_TIMEOUT_S").ok().and_then(|s| s.parse().ok()).unwrap_or(if json_out { 4 } else { 30 });
+        std::thread::spawn(move || {
+            std::thread::sleep(std::time::Duration::from_secs(limit));
+            let v = viol("process-hang", usize::MAX, format!("the plan did not finish within {limit} s (bounded progress)"));
+            if json_out {
+                println!("{}", serde_json::to_string(&v).unwrap());
+            } else {
+                println!("replay {}: class={} detail={}", path, v.class, v.detail);
+                println!("VIOLATION property={} replay={}", prop, path);
+            }
+            std::process::exit(1);
+        });
+    }
     match exec_value(&rf.world, &rf.property, Tier::Quick, &rf.case) {
         Err(e) => {
             eprintln!("HARNESS-ERROR: {e}");
@@ -661,10 +761,19 @@ pub fn cmd_check(prop: &str, tier: Tier) -> i32 {
         if seen_classes.contains(&key) {
             continue;
         }
-        let (case, v, execs, orig_len) = if f.world.starts_with("miri:") || f.world == "sweep" && false {
+        let (case, v, execs, orig_len) = if f.world.starts_with("miri:") || f.no_minimise {
             (f.case.clone(), f.violation.clone(), 0, 0)
         } else {
-            minimise_found(f, prop, tier, &scratch, &exe)
+            // a candidate plan may itself not terminate: minimise on a thread and give up on it
+            let (tx, rx) = std::sync::mpsc::channel();
+            let (f2, prop2, scratch2, exe2) = (f.clone(), prop.to_string(), scratch.clone(), exe.clone());
+            std::thread::spawn(move || {
+                let _ = tx.send(minimise_found(&f2, &prop2, tier, &scratch2, &exe2));
+            });
+            match rx.recv_timeout(std::time::Duration::from_secs(90)) {
+                Ok(x) => x,
+                Err(_) => (f.case.clone(), f.violation.clone(), 0, 0),
+            }
         };
         // known (open) finding?
         if let Some(k) = known.findings.iter().find(|k| {
